@@ -102,78 +102,20 @@ func (u jsonUnsupported) MarshalJSON() ([]byte, error) {
 	return nil, fmt.Errorf("Cannot encode value of type '%v' to JSON", u.kind)
 }
 
+// Converts a decoded JSON document into a value of type `typ`.
+// A document which does not denote a value of this type is refused (panic), never passed on.
 func TypeAwareUnmarshalValue(self interface{}, typ ast.Type) *Value {
-	if typ.Kind() == ast.OptionTypeKind {
-		opt := typ.(ast.OptionType)
-
-		switch self.(type) {
-		case nil:
-			return NewNoneOption()
-		default:
-			return NewValueOption(TypeAwareUnmarshalValue(self, opt.Inner))
-		}
+	raw, i := UnmarshalValue(herrors.Span{}, self)
+	if i != nil {
+		panic((*i).Message())
 	}
 
-	switch self := self.(type) {
-	case string:
-		return NewValueString(self)
-	case float64:
-		if typ.Kind() == ast.IntTypeKind {
-			return NewValueInt(int64(self))
-		}
-		return NewValueFloat(self)
-	case jsonFloat:
-		if typ.Kind() == ast.IntTypeKind {
-			return NewValueInt(int64(self))
-		}
-		return NewValueFloat(float64(self))
-	case int:
-		if typ.Kind() == ast.FloatTypeKind {
-			return NewValueFloat(float64(self))
-		}
-		return NewValueInt(int64(self))
-	case int64:
-		if typ.Kind() == ast.FloatTypeKind {
-			return NewValueFloat(float64(self))
-		}
-		return NewValueInt(self)
-	case bool:
-		return NewValueBool(self)
-	case map[string]interface{}:
-		// An any-object has no declared fields: keep every key with its untyped value.
-		if typ.Kind() == ast.AnyObjectTypeKind {
-			fields := make(map[string]*Value)
-			for key, field := range self {
-				fieldValue, _ := UnmarshalValue(herrors.Span{}, field)
-				fields[key] = fieldValue
-			}
-			return NewValueAnyObject(fields)
-		}
-
-		typeFields := typ.(ast.ObjectType).ObjFields
-
-		fields := make(map[string]*Value)
-		for _, typeField := range typeFields {
-			field := self[typeField.FieldName.Ident()]
-			fields[typeField.FieldName.Ident()] = TypeAwareUnmarshalValue(field, typeField.Type)
-		}
-
-		return NewValueObject(fields)
-	case []interface{}:
-		innerType := typ.(ast.ListType).Inner
-		values := make([]*Value, 0)
-		for _, item := range self {
-			values = append(values, TypeAwareUnmarshalValue(item, innerType))
-		}
-		return NewValueList(values)
-	case nil:
-		if typ.Kind() == ast.NullTypeKind {
-			return NewValueNull()
-		}
-		return NewNoneOption()
-	default:
-		panic(fmt.Sprintf("Cannot parse unknown JSON value: `%v` (%v) to HMS value", self, reflect.TypeOf(self)))
+	checked, castErr := DeepCast(*raw, typ, herrors.Span{}, true)
+	if castErr != nil {
+		panic(fmt.Sprintf("JSON value is not a `%s`: %s", typ, castErr.Message()))
 	}
+
+	return checked
 }
 
 // TODO: write docs why this is public
